@@ -266,6 +266,44 @@ func (cl *cluster) ddl(text string) error {
 		cmd := mkCmd(proto2.Command_AlterShardKeyCmd, proto2.E_AlterShardKeyCmd_Command, &proto2.AlterShardKeyCmd{
 			DBName: proto.String(stmt.Database), RpName: proto.String(stmt.RetentionPolicy), Name: proto.String(stmt.Name), Ski: ski.Marshal()})
 		return meta2.ApplyAlterShardKey(cl.data, cmd)
+	case *influxql.AlterRetentionPolicyStatement:
+		// sql node: StatementExecutor.executeAlterRetentionPolicyStatement -> metaclient.Client.UpdateRetentionPolicy
+		// (builds the UpdateRetentionPolicyCommand); ts-meta: storeFSM.applyUpdateRetentionPolicyCommand -> meta.ApplyUpdateRetentionPolicy
+		rpi, err := cl.mc.RetentionPolicy(stmt.Database, stmt.Name)
+		if err != nil {
+			return err
+		}
+		if rpi == nil {
+			return fmt.Errorf("retention policy %s.%s not found", stmt.Database, stmt.Name)
+		}
+		if (rpi.HasDownSamplePolicy() || rpi.ShardMergeDuration != 0) && stmt.Duration != nil && rpi.Duration != *stmt.Duration {
+			return errors.New("down sample policy exists")
+		}
+		oneReplication := 1
+		rpu := &meta2.RetentionPolicyUpdate{
+			Duration:           stmt.Duration,
+			ReplicaN:           &oneReplication,
+			ShardGroupDuration: stmt.ShardGroupDuration,
+			HotDuration:        stmt.HotDuration,
+			WarmDuration:       stmt.WarmDuration,
+			IndexGroupDuration: stmt.IndexGroupDuration,
+			IndexColdDuration:  stmt.IndexColdDuration,
+		}
+		replicaN := uint32(*rpu.ReplicaN)
+		cmd := mkCmd(proto2.Command_UpdateRetentionPolicyCommand, proto2.E_UpdateRetentionPolicyCommand_Command, &proto2.UpdateRetentionPolicyCommand{
+			Database:           proto.String(stmt.Database),
+			Name:               proto.String(stmt.Name),
+			NewName:            rpu.Name,
+			Duration:           meta2.GetInt64Duration(rpu.Duration),
+			ReplicaN:           &replicaN,
+			ShardGroupDuration: meta2.GetInt64Duration(rpu.ShardGroupDuration),
+			MakeDefault:        proto.Bool(stmt.Default),
+			HotDuration:        meta2.GetInt64Duration(rpu.HotDuration),
+			WarmDuration:       meta2.GetInt64Duration(rpu.WarmDuration),
+			IndexGroupDuration: meta2.GetInt64Duration(rpu.IndexGroupDuration),
+			IndexColdDuration:  meta2.GetInt64Duration(rpu.IndexColdDuration),
+		})
+		return meta2.ApplyUpdateRetentionPolicy(cl.data, cmd)
 	default:
 		return fmt.Errorf("unsupported ddl %T", st)
 	}
